@@ -24,6 +24,19 @@ Theorem C15_restore_is_stable :
     = filter (fun d => lookup_order objdims gname gdim nr d =? k) resultdims.
 Proof. intros. apply sort_key_stable. Qed.
 
+(* _broadcast_size_one_dims: a grouper whose dims are ANY subset of the array's core dims in ANY order ends up,
+   after the transpose and the insertion of size-1 axes, with its axes aligned one-to-one with the core dims *)
+Theorem C15_grouper_transposed_into_core_order :
+  forall core bdims, NoDup bdims -> transposed core bdims = filter (fun d => smem d bdims) core.
+Proof. exact transposed_in_core_order. Qed.
+
+Theorem C15_grouper_aligned_with_core_dims :
+  forall core bdims, NoDup bdims ->
+    broadcast_result core bdims = map (fun d => if smem d bdims then Some d else None) core.
+Proof. exact broadcast_aligns_with_core. Qed.
+
 Print Assumptions C15_restore_is_permutation.
+Print Assumptions C15_grouper_transposed_into_core_order.
+Print Assumptions C15_grouper_aligned_with_core_dims.
 Print Assumptions C15_restore_is_sorted_by_object_position.
 Print Assumptions C15_restore_is_stable.
